@@ -10,6 +10,7 @@ import (
 	"context"
 	"encoding/json"
 	"fmt"
+	"github.com/formancehq/numscript/internal/interpreter"
 	"math/rand/v2"
 	"strings"
 
@@ -46,6 +47,8 @@ type Result struct {
 	Probed    int
 }
 
+const modeStaticDirect = "static-direct"
+
 func metaModeFor(seed uint64, mode string) string {
 	return []string{"exact", "account", "all"}[core.Derive(seed, "meta/"+mode, 0)%3]
 }
@@ -64,7 +67,19 @@ func Execute(c Case, keepTrace bool) Result {
 	if len(modes) == 0 {
 		modes = store.AllModes
 	}
+	if len(c.Modes) == 0 {
+		modes = append(append([]string{}, modes...), modeStaticDirect)
+	}
 	for _, m := range modes {
+		if m == modeStaticDirect {
+			// the repository's own StaticStore value handed over as it is, not behind the
+			// simulated store's type: what the CLI and every embedding test does
+			st := interpreter.StaticStore{Balances: store.ParseBalances(c.In.Balances), Meta: store.CopyMeta(c.In.Meta)}
+			out := exec.Run(context.Background(), p.PR, exec.CopyVars(c.In), st, exec.Flags(c.In))
+			tr.Add("[%s] outcome %s", m, out.Canon())
+			res.Runs = append(res.Runs, ModeRun{Mode: m, Outcome: out})
+			continue
+		}
 		plan := store.Plan{Mode: m, Shared: false, MetaMode: metaModeFor(c.ModesSeed, m), Seed: core.Derive(c.ModesSeed, "plan/"+m, 0)}
 		st := store.New(c.In, plan)
 		out := exec.Run(context.Background(), p.PR, exec.CopyVars(c.In), st, exec.Flags(c.In))
@@ -127,7 +142,7 @@ func Execute(c Case, keepTrace bool) Result {
 		if r.Outcome.Canon() != base.Outcome.Canon() {
 			res.Violation = &core.Violation{Property: "C10", Oracle: "answer-independence", Class: "outcome-differs",
 				Predicate: Predicate(c),
-				Detail: fmt.Sprintf("store mode %q gives %s ; store mode %q gives %s", base.Mode, core.Truncate(base.Outcome.Canon(), 400), r.Mode, core.Truncate(r.Outcome.Canon(), 400))}
+				Detail:    fmt.Sprintf("store mode %q gives %s ; store mode %q gives %s", base.Mode, core.Truncate(base.Outcome.Canon(), 400), r.Mode, core.Truncate(r.Outcome.Canon(), 400))}
 			return res
 		}
 	}
@@ -172,7 +187,7 @@ func candidates(c Case) []Case {
 	if len(c.Modes) == 0 || len(c.Modes) > 2 {
 		ms := c.Modes
 		if len(ms) == 0 {
-			ms = store.AllModes
+			ms = append(append([]string{}, store.AllModes...), modeStaticDirect)
 		}
 		for i := 0; i < len(ms); i++ {
 			for j := i + 1; j < len(ms); j++ {
